@@ -275,12 +275,23 @@ def run(ctx, model):
             n_oracle += 1
     cov.bump("oracle-cases", n_oracle)
     check_get_formatting(ctx, model, cov, tup)
+    # lines of the same image put next to each other on a screen (two display_only calls at adjacent positions): each copy
+    # decodes on its own — the high-level layer of harness/c07.py, where the mode is the library's choice
+    import c07
+    c07.highlevel_display(ctx, model, cov)
     return cov
 
 
 def replay(ctx, model, rec):
     case = rec["case"]
     tup = common.import_impl()
+    if case.get("kind") == "highlevel":
+        import c07 as _c07
+        n0 = len(ctx.violations)
+        _c07.highlevel_display(ctx, model, common.Coverage("replay"))
+        mine = ctx.violations[n0:]
+        del ctx.violations[n0:]
+        return {"violates": bool(mine), "violations": [v["what"] for v in mine][:3], "note": "the high-level display cases of this seed are re-run"}
     kind = case.get("kind")
     if kind in ("lines", "subset"):
         c = dict(case["case"], api="to_lines")
